@@ -384,6 +384,7 @@ def core_option_sets():
         (allon, None),
         (off("detect_aliases"), EVE[2]),
         (off("reduce_affine_expression"), None),
+        (off("iterative_simplification"), None),
     ]
 
 
